@@ -11,7 +11,7 @@ META = {
         "state is rewritten before returning; R2 tag tables: per codec pair, the tag an encoder writes for a variant is a tag the decoder maps "
         "back to that variant, and unknown tags end in Err; R4 tainted length arithmetic: a 64-bit length read from the wire never enters an "
         "unchecked +,* or - nor a split/advance length without a dominating bound (a corrupt length must give an error, not a panic); "
-        "R5 panic audit of the decode bodies; R6 discard accounting: when a decoder drops the buffered part of a body it measures the dropped size before clearing the buffer; R7 bytes split off for the following frames are put back on every exit; R8 a delegating decoder waits for a header only at a frame boundary."),
+        "R5 panic audit of the decode bodies; R6 discard accounting: when a decoder drops the buffered part of a body it measures the dropped size before clearing the buffer; R7 bytes split off for the following frames are put back on every exit; R8 a delegating decoder waits for a header only at a frame boundary; R9 a size test against a length read through a peek cursor is made on the cursor or adds the peeked header size."),
     "does_not_decide": "equality of decoded and encoded messages for all values (bodies are Recon, C09); silently wrong messages produced by mutated valid streams inside a body",
 }
 
@@ -311,16 +311,22 @@ def run(ctx):
             for x in b.calls:
                 if x.name in LENGTH_SINKS and len(x.args) > 1 and "Iterator" not in (x.trait or ""):
                     reads = wire_reads(b, x.args[1])
+                    if x.name in ("reserve", "with_capacity") and src_root(b, x.args[0], through_calls=False) == 2:
+                        # allocation hints: any length field of the frame counts, also masked ones and sums built through helper calls
+                        reads = [s_[1] for s_ in b.sources(x.args[1], stop_at_calls=False) if s_[0] == "call" and s_[1].name in ("get_u32", "get_u64", "get_u128", "get_i64", "get_uint")]
                     if not reads:
                         continue
                     d = describe_operand(b, x.args[1])
                     n += 1
                     up, lo = cmp_bounds(b, x.block)
                     ids = set(id(c) for c in reads)
-                    ok = any(ids & s_ for s_ in up) or x.name == "reserve"
+                    ok = any(ids & s_ for s_ in up)
+                    if x.name in ("reserve", "with_capacity"):
+                        # an allocation hint: acceptable when capped by a constant (`len.min(MAX_RESERVE)`)
+                        ok = ok or (d.startswith("min(") and re.search(r", \d+\)$", d) is not None)
                     site = "%s@%d" % (reads[0].name, sorted(c.line for c in reads)[0] - b.meta["lo"])
                     r.check(ok, "%s/%s-length/%s" % (tag, x.name, site), x.loc(), "%s(len) is dominated by a comparison bounding the wire length" % x.name,
-                            "%s(%s) uses a wire length that no dominating comparison bounds: a corrupt length panics" % (x.name, _short(d)))
+                            "%s(%s) uses a wire length that no dominating comparison bounds: a corrupt length panics%s" % (x.name, _short(d), " (capacity overflow) or aborts the process on an allocation failure" if x.name in ("reserve", "with_capacity") else ""))
         if n < 6:
             raise AnchorMissing("only %d tainted-length sites found; the source patterns are no longer recognised" % n)
 
@@ -452,6 +458,81 @@ def run(ctx):
                 ctx.saw(b)
                 r.check(bool(own), "%s/early-none#%d/only-at-frame-boundary" % (tag, k_), b.loc(line), "waiting for header bytes is conditional on the decoder state (%s)" % own[0][:50] if own else "",
                         "Ok(None) is returned because src holds too few bytes for a header, whatever the state of the inner decoder: when the inner decoder is part way through a body, the rest of that body is never passed on if it is shorter than a header (the frame is only completed when a later frame arrives)")
+
+    with ctx.rule("C10.R9", "T7", "a size test against a length read through a peek cursor accounts for the bytes already peeked", floor=6) as r:
+        # Decoders peek at header fields through a cursor over src (`let mut bytes = src.as_ref(); bytes.get_u64()`), which does not
+        # consume src. A later test "is the rest of the frame here?" must either be made on the cursor, or - when made on src - add
+        # the size of the header fields that precede the payload (at least everything up to the end of the length field it uses).
+        SIZES = {"get_u8": 1, "get_i8": 1, "get_u16": 2, "get_i16": 2, "get_u32": 4, "get_i32": 4, "get_u64": 8, "get_i64": 8, "get_f64": 8, "get_u128": 16}
+        n = 0
+
+        def recv_root(b, c):
+            return src_root(b, c.args[0], through_calls=False) if c.args else None
+
+        def consts_added(b, op, sub):
+            """sum of constants added on this side (sub=False) or subtracted from it (sub=True), following single definitions"""
+            tot, seen, work = 0, set(), [op]
+            while work:
+                o = work.pop()
+                if o[0] == "k" or o[0] not in ("c", "m"):
+                    continue
+                loc = o[1][0]
+                if loc in seen:
+                    continue
+                seen.add(loc)
+                d = b.single_def(loc)
+                if not d or d[0] != "assign":
+                    continue
+                rv = d[3]
+                if rv[0] in ("bin", "checked_bin") and rv[1] in (("Sub", "SubWithOverflow", "SubUnchecked") if sub else ("Add", "AddWithOverflow", "AddUnchecked")):
+                    for x in (rv[2], rv[3]) if not sub else (rv[3],):
+                        if x[0] == "k" and isinstance(x[1].get("v"), int):
+                            tot += x[1]["v"]
+                    work.extend([rv[2], rv[3]] if not sub else [rv[2]])
+                elif rv[0] in ("use", "cast"):
+                    work.append(rv[1] if rv[0] == "use" else rv[2])
+            return tot
+
+        for c, b in decs:
+            tag = (b.meta.get("self_adt") or "?").split("::")[-1]
+            reads_all = [x for x in b.calls if x.name in SIZES and x.args]
+            k_ = 0
+            for sb in range(b.n):
+                if b.is_cleanup(sb) or b.term(sb)["k"] != "switch":
+                    continue
+                si = b.switch_info(sb)
+                rv = si.get("rvalue") if si else None
+                if not rv or rv[0] != "bin" or rv[1] not in ("Lt", "Le", "Gt", "Ge"):
+                    continue
+                sides = []
+                for o in (rv[2], rv[3]):
+                    szc = [s_[1] for s_ in b.sources(o, stop_bin=()) if s_[0] == "call" and s_[1].name in ("remaining", "len") and s_[1].args]
+                    rds = [s_[1] for s_ in b.sources(o, stop_at_calls=False, stop_bin=("BitAnd", "Shr", "ShrUnchecked", "Rem", "Div")) if s_[0] == "call" and s_[1].name in SIZES and s_[1].name not in ("get_u8", "get_i8")]
+                    sides.append((o, szc, rds))
+                for (o1, sz1, rd1), (o2, sz2, rd2) in (sides, sides[::-1]):
+                    if not sz1 or not rd2 or rd1:
+                        continue
+                    size_call = sz1[0]
+                    cur_roots = {recv_root(b, x) for x in rd2}
+                    if recv_root(b, size_call) in cur_roots:
+                        n += 1
+                        r.ok("%s/size-test#%d/on-the-cursor" % (tag, k_), b.loc(b.blocks[sb]["t"].get("line")), "the test is made on the cursor the length was read from")
+                        k_ += 1
+                        continue
+                    # test made on another buffer (src): how many header bytes were certainly peeked up to the end of the length fields used?
+                    last = max(rd2, key=lambda x: sum(1 for y in rd2 if b.dominates(y.block, x.block)))
+                    root = recv_root(b, last)
+                    pmin = sum(SIZES[x.name] for x in reads_all if recv_root(b, x) == root and (x is last or b.dominates(x.block, last.block)) and b.dominates(x.block, sb))
+                    if root == 2:
+                        pmin = 0    # read directly from src: already consumed
+                    K = consts_added(b, o2, False) + consts_added(b, o1, True)
+                    n += 1
+                    r.check(K >= pmin, "%s/size-test#%d/accounts-for-peeked-header" % (tag, k_), b.loc(b.blocks[sb]["t"].get("line")),
+                            "src.remaining() is compared with the wire length plus %d, covering the %d header bytes peeked up to that length field" % (K, pmin),
+                            "src.remaining() is compared with a length read through a peek cursor but only %d is added for the header, although at least %d bytes of header precede the payload in src: the test passes before the frame is complete and the following split/advance runs past the end of the buffer (panic) on a fragmented read" % (K, pmin))
+                    k_ += 1
+        if n < 6:
+            raise AnchorMissing("expected >= 6 size tests against wire lengths, found %d" % n)
 
 
 def _short(d):
